@@ -2,8 +2,8 @@ package main
 
 import (
 	"bytes"
+	"crypto/sha256"
 	"encoding/hex"
-	"encoding/json"
 	"fmt"
 	"math/big"
 	"os"
@@ -17,6 +17,210 @@ import (
 
 	"verif/harness/common"
 )
+
+// ---------------------------------------------------------------- snapshots
+
+type SObj struct {
+	Name  string
+	Mtime int64
+	Tag   string // content hash prefix (files), summary of the contents (directories)
+	Kind  string
+}
+
+type Snap struct {
+	Record  []byte
+	RecKind string // none | file | dir
+	Root    []SObj
+	Subs    [256][]SObj
+	Absent  []int // listed subdirectories that do not exist
+}
+
+func tagOf(b []byte) string {
+	h := sha256.Sum256(b)
+	return hex.EncodeToString(h[:6])
+}
+
+func tagHex(b []byte) string { return hex.EncodeToString([]byte(tagOf(b))) }
+
+// describe returns the observable of one directory entry.
+func describe(path, name string) SObj {
+	li, err := os.Lstat(path)
+	if err != nil {
+		return SObj{Name: name, Kind: "?"}
+	}
+	switch {
+	case li.Mode()&os.ModeSymlink != 0:
+		fi, err := os.Stat(path)
+		if err != nil {
+			return SObj{Name: name, Kind: "L", Tag: "-"}
+		}
+		b, _ := os.ReadFile(path)
+		return SObj{Name: name, Kind: "S", Mtime: fi.ModTime().UnixNano(), Tag: tagOf(b)}
+	case li.IsDir():
+		ents, _ := os.ReadDir(path)
+		if len(ents) == 0 {
+			return SObj{Name: name, Kind: "E", Mtime: li.ModTime().UnixNano(), Tag: "-"}
+		}
+		var parts []string
+		for _, e := range ents {
+			s := describe(filepath.Join(path, e.Name()), e.Name())
+			parts = append(parts, fmt.Sprintf("%q/%d/%s/%s", s.Name, s.Mtime, s.Tag, s.Kind))
+		}
+		return SObj{Name: name, Kind: "D", Mtime: li.ModTime().UnixNano(), Tag: tagOf([]byte(strings.Join(parts, ";")))}
+	default:
+		b, _ := os.ReadFile(path)
+		return SObj{Name: name, Kind: "F", Mtime: li.ModTime().UnixNano(), Tag: tagOf(b)}
+	}
+}
+
+func listDir(dir string, skip func(string) bool) ([]SObj, bool) {
+	ents, err := os.ReadDir(dir)
+	if err != nil {
+		return nil, false
+	}
+	var out []SObj
+	for _, e := range ents {
+		if skip != nil && skip(e.Name()) {
+			continue
+		}
+		out = append(out, describe(filepath.Join(dir, e.Name()), e.Name()))
+	}
+	sort.Slice(out, func(i, j int) bool { return out[i].Name < out[j].Name })
+	return out, true
+}
+
+func isSubName(n string) bool {
+	if len(n) != 2 {
+		return false
+	}
+	_, err := strconv.ParseUint(n, 16, 8)
+	return err == nil && strings.ToLower(n) == n
+}
+
+// snapshot observes the cache directory; only the subdirectories in subs are listed (the
+// others are known to exist and to be empty: everything in the directory was put there by
+// this runner).
+func snapshot(dir string, subs []int) *Snap {
+	s := &Snap{RecKind: "none"}
+	p := filepath.Join(dir, "trim.txt")
+	if fi, err := os.Lstat(p); err == nil {
+		if fi.IsDir() {
+			s.RecKind = "dir"
+		} else if b, err := os.ReadFile(p); err == nil {
+			s.Record, s.RecKind = b, "file"
+		}
+	}
+	s.Root, _ = listDir(dir, func(n string) bool { return n == "trim.txt" || isSubName(n) })
+	for _, i := range subs {
+		var ok bool
+		s.Subs[i], ok = listDir(filepath.Join(dir, subName(i)), nil)
+		if !ok {
+			s.Absent = append(s.Absent, i)
+		}
+	}
+	return s
+}
+
+func showSObj(o SObj) string {
+	tag := o.Tag
+	if tag == "" {
+		tag = "-"
+	}
+	if tag != "-" {
+		tag = hex.EncodeToString([]byte(tag))
+	}
+	return fmt.Sprintf("%s %d %s %s", common.Hex([]byte(o.Name)), o.Mtime, tag, o.Kind)
+}
+
+func showRec(s *Snap) string {
+	switch s.RecKind {
+	case "dir":
+		return "dir"
+	case "file":
+		return common.Hex(s.Record)
+	}
+	return "none"
+}
+
+// modelDir renders a snapshot in the line format of the model driver (and of its answer).
+func modelDir(s *Snap) string {
+	parts := []string{showRec(s), fmt.Sprint(len(s.Root))}
+	for _, o := range s.Root {
+		parts = append(parts, showSObj(o))
+	}
+	parts = append(parts, fmt.Sprint(len(s.Absent)))
+	for _, i := range s.Absent {
+		parts = append(parts, fmt.Sprint(i))
+	}
+	k := 0
+	for i := range s.Subs {
+		if len(s.Subs[i]) > 0 {
+			k++
+		}
+	}
+	parts = append(parts, fmt.Sprint(k))
+	for i := range s.Subs {
+		if len(s.Subs[i]) > 0 {
+			parts = append(parts, fmt.Sprint(i), fmt.Sprint(len(s.Subs[i])))
+			for _, o := range s.Subs[i] {
+				parts = append(parts, showSObj(o))
+			}
+		}
+	}
+	return strings.Join(parts, " ")
+}
+
+// canonModelAnswer sorts the objects of every subdirectory of a model answer by name, so that
+// it can be compared with a sorted snapshot; it returns the directory part and the error flags.
+func canonModelAnswer(ans string) (string, string) {
+	f := strings.Fields(ans)
+	if len(f) < 3 || f[0] != "D" {
+		return ans, ""
+	}
+	pos := 1
+	next := func() string {
+		if pos >= len(f) {
+			return ""
+		}
+		pos++
+		return f[pos-1]
+	}
+	readObjs := func(n int) []string {
+		var objs []string
+		for i := 0; i < n; i++ {
+			a, b, c, d := next(), next(), next(), next()
+			objs = append(objs, a+" "+b+" "+c+" "+d)
+		}
+		sort.Slice(objs, func(i, j int) bool {
+			return string(common.UnHex(strings.Fields(objs[i])[0])) < string(common.UnHex(strings.Fields(objs[j])[0]))
+		})
+		return objs
+	}
+	out := []string{"D", next()}
+	n, _ := strconv.Atoi(next())
+	out = append(out, fmt.Sprint(n))
+	out = append(out, readObjs(n)...)
+	na, _ := strconv.Atoi(next())
+	out = append(out, fmt.Sprint(na))
+	for i := 0; i < na; i++ {
+		out = append(out, next())
+	}
+	k, _ := strconv.Atoi(next())
+	out = append(out, fmt.Sprint(k))
+	for i := 0; i < k; i++ {
+		idx := next()
+		cnt, _ := strconv.Atoi(next())
+		out = append(out, idx, fmt.Sprint(cnt))
+		out = append(out, readObjs(cnt)...)
+	}
+	errs := ""
+	if next() == "E" {
+		errs = next()
+	}
+	return strings.Join(out, " "), errs
+}
+
+// ---------------------------------------------------------------- findings and oracles
 
 // Finding is one failed oracle or one disagreement with the model.
 type Finding struct {
@@ -51,8 +255,6 @@ func (o *Outcome) has(oracle string) bool {
 	}
 	return false
 }
-
-func tagHex(b []byte) string { return hex.EncodeToString([]byte(tagOf(b))) }
 
 func pathKey(sub int, name string) string { return fmt.Sprintf("%d/%s", sub, name) }
 
@@ -94,18 +296,24 @@ func ageOfRecord(now int64, t *big.Int) *big.Int {
 	return x.Sub(big.NewInt(now), x)
 }
 
+func sameObjs(a, b any) bool { return fmt.Sprintf("%v", a) == fmt.Sprintf("%v", b) }
+
 // trimOracles evaluates the property on one Trim call from the snapshots taken around it.
 // slack widens every threshold in the direction that cannot raise a false alarm (0 with the
 // injected clock).
 func trimOracles(out *Outcome, before, after *Snap, now, slack int64, lastUse map[string]int64, restored map[string]bool, trimErr error) {
 	out.Trims++
-	if trimErr != nil {
+	if trimErr != nil && before.RecKind != "dir" {
 		out.find("correspondence", "trim-error", "trim-error", "Trim returned "+trimErr.Error())
 	}
 	// --- non-entry files are untouched; nothing is added or modified
-	if !reflect_equal(before.Root, after.Root) {
+	if !sameObjs(before.Root, after.Root) {
 		out.find("impl-violation", "non-entry-untouched", "root-changed",
 			fmt.Sprintf("objects of the cache root changed: before %v after %v", before.Root, after.Root))
+	}
+	if !sameObjs(before.Absent, after.Absent) {
+		out.find("impl-violation", "non-entry-untouched", "subdirs-changed",
+			fmt.Sprintf("missing subdirectories before %v, after %v", before.Absent, after.Absent))
 	}
 	for i := range before.Subs {
 		var nb, na []SObj
@@ -123,63 +331,80 @@ func trimOracles(out *Outcome, before, after *Snap, now, slack int64, lastUse ma
 					fmt.Sprintf("subdirectory %02x: %q is new or was modified by Trim (%v -> %v)", i, o.Name, p, o))
 			}
 		}
-		if !reflect_equal(nb, na) {
+		if !sameObjs(nb, na) {
 			out.find("impl-violation", "non-entry-untouched", "subdir-foreign-changed",
 				fmt.Sprintf("subdirectory %02x: files without the entry suffix changed: %v -> %v", i, nb, na))
 		}
 	}
 	// --- is a trim due?  (independent reading of the record)
 	due, recent := false, false
-	if !before.HasRec {
+	switch {
+	case before.RecKind == "none":
 		due = true
 		out.Tags = append(out.Tags, "record:missing")
-	} else if t, ok := parseRecord(before.Record); !ok {
+	case before.RecKind == "dir":
 		due = true
-		out.Tags = append(out.Tags, "record:corrupt")
-	} else {
-		age := ageOfRecord(now, t)
-		switch {
-		case age.Cmp(big.NewInt(day+slack)) >= 0:
+		out.Tags = append(out.Tags, "record:directory")
+	default:
+		if t, ok := parseRecord(before.Record); !ok {
 			due = true
-			out.Tags = append(out.Tags, "record:old")
-		case age.Cmp(big.NewInt(-hour-slack)) <= 0:
-			due = true
-			out.Tags = append(out.Tags, "record:future>=1h")
-		case age.Sign() >= 0 && age.Cmp(big.NewInt(day-slack)) < 0:
-			recent = true
-			out.Tags = append(out.Tags, "record:recent")
-		default:
-			out.Tags = append(out.Tags, "record:future<1h-or-boundary")
+			out.Tags = append(out.Tags, "record:corrupt")
+		} else {
+			age := ageOfRecord(now, t)
+			switch {
+			case age.Cmp(big.NewInt(day+slack)) >= 0:
+				due = true
+				out.Tags = append(out.Tags, "record:old")
+			case age.Cmp(big.NewInt(-hour-slack)) <= 0:
+				due = true
+				out.Tags = append(out.Tags, "record:future>=1h")
+			case age.Sign() >= 0 && age.Cmp(big.NewInt(day-slack)) < 0:
+				recent = true
+				out.Tags = append(out.Tags, "record:recent")
+			default:
+				out.Tags = append(out.Tags, "record:future<1h-or-boundary")
+			}
 		}
 	}
 	if recent {
 		// a trim completed less than a day ago: nothing at all changes
-		if before.HasRec != after.HasRec || !bytes.Equal(before.Record, after.Record) || !reflect_equal(before.Subs, after.Subs) {
+		if before.RecKind != after.RecKind || !bytes.Equal(before.Record, after.Record) || !sameObjs(before.Subs, after.Subs) {
 			out.find("impl-violation", "recent-trim-noop", "recent-trim-noop",
 				fmt.Sprintf("trim.txt %q says a trim happened less than a day before now=%d, yet the directory changed (trim.txt now %q)", before.Record, now, after.Record))
 		}
+		if trimErr != nil {
+			out.find("impl-violation", "recent-trim-noop", "recent-trim-error", "Trim returned "+trimErr.Error())
+		}
 	}
-	ran := after.HasRec && (!before.HasRec || !bytes.Equal(before.Record, after.Record))
+	ran := after.RecKind == "file" && (before.RecKind != "file" || !bytes.Equal(before.Record, after.Record))
 	if due {
 		out.Ran++
-		// the trim time is recorded
-		want := strconv.FormatInt(floorDiv(now, 1e9), 10)
-		okRec := after.HasRec && string(after.Record) == want
-		if !okRec && slack > 0 && after.HasRec {
-			if v, err := strconv.ParseInt(string(after.Record), 10, 64); err == nil && v >= floorDiv(now, 1e9) && v <= floorDiv(now, 1e9)+5 {
-				okRec = true
+		if before.RecKind == "dir" {
+			// the record cannot be written: Trim must say so and leave it alone
+			if trimErr == nil || after.RecKind != "dir" {
+				out.find("impl-violation", "record-updated", "unwritable-record",
+					fmt.Sprintf("trim.txt is a directory: Trim returned %v and trim.txt is now %s", trimErr, after.RecKind))
 			}
-		}
-		if !okRec {
-			out.find("impl-violation", "record-updated", "record-not-updated",
-				fmt.Sprintf("a trim was due at now=%d (record %q) but trim.txt is %q afterwards, want %q", now, before.Record, after.Record, want))
+		} else {
+			// the trim time is recorded
+			want := strconv.FormatInt(floorDiv(now, 1e9), 10)
+			okRec := after.RecKind == "file" && string(after.Record) == want
+			if !okRec && slack > 0 && after.RecKind == "file" {
+				if v, err := strconv.ParseInt(string(after.Record), 10, 64); err == nil && v >= floorDiv(now, 1e9) && v <= floorDiv(now, 1e9)+5 {
+					okRec = true
+				}
+			}
+			if !okRec {
+				out.find("impl-violation", "record-updated", "record-not-updated",
+					fmt.Sprintf("a trim was due at now=%d (record %q) but trim.txt is %q afterwards, want %q", now, before.Record, after.Record, want))
+			}
 		}
 	}
 	if due || ran {
 		// every entry unused for longer than five days plus one hour is removed
 		for i := range before.Subs {
 			for _, o := range before.Subs[i] {
-				if o.Kind == "F" && hasEntrySuffix(o.Name) && o.Mtime < now-fiveDays-hour-slack {
+				if (o.Kind == "F" || o.Kind == "S") && hasEntrySuffix(o.Name) && o.Mtime < now-fiveDays-hour-slack {
 					if _, still := findObj(after.Subs[i], o.Name); still {
 						out.find("impl-violation", "stale-removed", "stale-kept:"+ageClass(now-o.Mtime),
 							fmt.Sprintf("subdirectory %02x: entry %q with mtime %d (age %s) survived the trim at %d", i, o.Name, o.Mtime, time.Duration(now-o.Mtime), now))
@@ -191,7 +416,7 @@ func trimOracles(out *Outcome, before, after *Snap, now, slack int64, lastUse ma
 	// --- nothing used within the last five days is removed
 	for i := range before.Subs {
 		for _, o := range before.Subs[i] {
-			if o.Kind != "F" {
+			if o.Kind != "F" && o.Kind != "S" {
 				continue
 			}
 			_, still := findObj(after.Subs[i], o.Name)
@@ -215,7 +440,7 @@ func trimOracles(out *Outcome, before, after *Snap, now, slack int64, lastUse ma
 					}
 				}
 				out.find("impl-violation", "keep-recent", key,
-					fmt.Sprintf("subdirectory %02x: %q was used %s before the trim (by %s; mtime age %s) and was removed", i, o.Name, time.Duration(now-lu), why, time.Duration(now-o.Mtime)))
+					fmt.Sprintf("subdirectory %02x: %q (tag %s) was used %s before the trim (by %s; mtime age %s) and was removed", i, o.Name, o.Tag, time.Duration(now-lu), why, time.Duration(now-o.Mtime)))
 			}
 		}
 	}
@@ -234,27 +459,7 @@ func ageClass(age int64) string {
 	}
 }
 
-func floorDiv(a, b int64) int64 {
-	q := a / b
-	if a%b != 0 && (a < 0) != (b < 0) {
-		q--
-	}
-	return q
-}
-
-func reflect_equal(a, b any) bool { return fmt.Sprintf("%v", a) == fmt.Sprintf("%v", b) }
-
 // ---------------------------------------------------------------- running one scenario
-
-type runner struct {
-	f    *common.Flags
-	res  *common.Result
-	m    *common.Model
-	work string
-	n    int
-	dir  string       // one long-lived cache directory, emptied between scenarios
-	c    *cache.Cache // the real cache on it
-}
 
 // relevant returns the subdirectories a scenario can put files into.
 func relevant(scn *Scenario) []int {
@@ -285,17 +490,6 @@ func relevant(scn *Scenario) []int {
 	return out
 }
 
-// putSubs are the subdirectories the action ids and contents of the generators map to.
-var putSubs = func() map[int]bool {
-	m := map[int]bool{}
-	for k := 0; k < 8; k++ {
-		ia, _ := indexPath(k)
-		id, _ := dataPathOf(outputID(k))
-		m[ia], m[id] = true, true
-	}
-	return m
-}()
-
 var allSubs = func() []int {
 	var l []int
 	for i := 0; i < 256; i++ {
@@ -316,6 +510,7 @@ func (rn *runner) reset(subs []int) error {
 			return err
 		}
 		rn.dir, rn.c = dir, c
+		os.Mkdir(filepath.Join(rn.work, "targets"), 0o777)
 		return nil
 	}
 	ents, _ := os.ReadDir(rn.dir)
@@ -336,6 +531,10 @@ func (rn *runner) reset(subs []int) error {
 			os.RemoveAll(filepath.Join(p, e.Name()))
 		}
 	}
+	tg, _ := os.ReadDir(filepath.Join(rn.work, "targets"))
+	for _, e := range tg {
+		os.Remove(filepath.Join(rn.work, "targets", e.Name()))
+	}
 	return nil
 }
 
@@ -352,10 +551,15 @@ func (rn *runner) runScenario(scn *Scenario) *Outcome {
 	}
 	defer rn.reset(subs)
 	dir, c := rn.dir, rn.c
-	N := scn.Now
+	// the epoch is the real time
+	real0 := time.Now().UnixNano()
+	N := floorDiv(real0, 1e9)*1e9 + scn.Frac
+	if fsGran > 1 {
+		N -= N % fsGran
+	}
 	slack := int64(0)
 	if !injectable {
-		N = time.Now().UnixNano()
+		N = real0
 		slack = 3 * sec
 	}
 	clock := func(ns int64) int64 {
@@ -377,20 +581,21 @@ func (rn *runner) runScenario(scn *Scenario) *Outcome {
 		os.Chtimes(filepath.Join(dir, subName(ia), na), at(N-e.AgeA), at(N-e.AgeA))
 		os.Chtimes(filepath.Join(dir, subName(id), nd), at(N-e.AgeD), at(N-e.AgeD))
 	}
-	for _, o := range scn.Objs {
-		if o.Name == "" || strings.ContainsRune(o.Name, 0) || o.Name == "." || o.Name == ".." {
+	for k, o := range scn.Objs {
+		name := o.name()
+		if name == "" || strings.ContainsRune(name, 0) || name == "." || name == ".." {
 			continue
 		}
 		base := dir
 		if o.Sub >= 0 {
-			if strings.Contains(o.Name, "/") {
+			if strings.Contains(name, "/") {
 				continue
 			}
 			base = filepath.Join(dir, subName(o.Sub&255))
-		} else if o.Name == "trim.txt" || isSubName(strings.SplitN(o.Name, "/", 2)[0]) {
+		} else if name == "trim.txt" || isSubName(strings.SplitN(name, "/", 2)[0]) {
 			continue
 		}
-		p := filepath.Join(base, o.Name)
+		p := filepath.Join(base, name)
 		if _, err := os.Lstat(p); err == nil {
 			continue // do not clobber an entry or an earlier object
 		}
@@ -407,40 +612,49 @@ func (rn *runner) runScenario(scn *Scenario) *Outcome {
 			os.Chtimes(p, t, t)
 		case "L":
 			os.Symlink(filepath.Join(dir, "no-such-target"), p)
+		case "S":
+			tg := filepath.Join(rn.work, "targets", fmt.Sprintf("t%d", k))
+			os.WriteFile(tg, []byte(o.Data), 0o666)
+			os.Chtimes(tg, t, t)
+			os.Symlink(tg, p)
 		default:
 			os.WriteFile(p, []byte(o.Data), 0o666)
 			os.Chtimes(p, t, t)
 		}
-		if o.Sub < 0 && strings.Contains(o.Name, "/") {
+		if o.Sub < 0 && strings.Contains(name, "/") {
 			// keep the parent directory's mtime stable across snapshots
 			os.Chtimes(filepath.Dir(p), at(N-20*day), at(N-20*day))
 		}
 	}
-	if scn.Record != nil {
-		b, err := hex.DecodeString(*scn.Record)
-		if err == nil {
-			os.WriteFile(filepath.Join(dir, "trim.txt"), b, 0o666)
-		}
+	raw, rkind := scn.Rec.render(N)
+	switch rkind {
+	case "file":
+		os.WriteFile(filepath.Join(dir, "trim.txt"), raw, 0o666)
+	case "dir":
+		os.Mkdir(filepath.Join(dir, "trim.txt"), 0o777)
+		os.Chtimes(filepath.Join(dir, "trim.txt"), at(N-20*day), at(N-20*day))
 	}
 	for _, i := range scn.Missing {
-		if putSubs[i&255] {
-			continue // a Put into a deleted subdirectory fails; that is not what is modelled here
-		}
 		os.Remove(filepath.Join(dir, subName(i&255))) // succeeds only when empty
 	}
 	s0 := snapshot(dir, subs)
 	for i := range s0.Subs {
 		out.Objects += len(s0.Subs[i])
 	}
+	absent := map[int]bool{}
+	for _, i := range s0.Absent {
+		absent[i] = true
+		out.Tags = append(out.Tags, "missing-subdir")
+	}
 	// ---- history
 	lastUse := map[string]int64{}
 	restored := map[string]bool{}
 	var evs []string
+	var implErrs []byte
 	exists := func(sub int, name string) bool {
 		_, err := os.Stat(filepath.Join(dir, subName(sub), name))
 		return err == nil
 	}
-	var lastTrimNow int64
 	for _, e := range scn.Events {
 		u := clock(N + e.At)
 		out.Events++
@@ -484,13 +698,49 @@ func (rn *runner) runScenario(scn *Scenario) *Outcome {
 			} else {
 				out.Tags = append(out.Tags, "ev:outputfile-miss")
 			}
-			evs = append(evs, fmt.Sprintf("G %d %d %s", u, id, common.Hex([]byte(nd))))
+			evs = append(evs, fmt.Sprintf("O %d %d %s", u, id, common.Hex([]byte(nd))))
 		case "put":
 			id, nd := dataPathOf(outputID(e.Data))
-			old, rerr := os.ReadFile(filepath.Join(dir, subName(id), nd))
-			already := rerr == nil && bytes.Equal(old, content(e.Data))
-			if _, _, err := c.Put(actionID(e.ID), bytes.NewReader(content(e.Data))); err != nil {
-				out.find("correspondence", "put-error", "put-error", err.Error())
+			dpath := filepath.Join(dir, subName(id), nd)
+			old, rerr := os.ReadFile(dpath)
+			oldInfo, _ := os.Stat(dpath)
+			data := content(e.Data)
+			already := rerr == nil && bytes.Equal(old, data)
+			_, _, perr := c.Put(actionID(e.ID), bytes.NewReader(data))
+			// the time a (re)created data file carries
+			ud := u
+			if len(data) == 0 && !already {
+				if fi, err := os.Stat(dpath); err == nil {
+					// copyFile created (or truncated) the empty output without os.Chtimes: it carries
+					// the file system's clock.  At offset 0 that IS the scenario's clock (up to the
+					// run time); elsewhere the runner plays the file system and stamps the event time.
+					fsNow := fi.ModTime().UnixNano()
+					if d := fsNow - u; injectable && (d > 2*sec || d < -2*sec) {
+						os.Chtimes(dpath, at(u), at(u))
+						out.Tags = append(out.Tags, "ev:put-empty-new(stamped)")
+					} else {
+						ud = fsNow
+						out.Tags = append(out.Tags, "ev:put-empty-new(fs clock)")
+					}
+				}
+			}
+			ddTag := tagHex(data)
+			if perr != nil {
+				if !absent[ia] && !absent[id] {
+					out.find("correspondence", "put-error", "put-error", perr.Error())
+					continue
+				}
+				out.Tags = append(out.Tags, "ev:put-into-missing-subdir")
+				// the data part may have been carried out
+				if now, err := os.ReadFile(dpath); err == nil && bytes.Equal(now, data) {
+					ni, _ := os.Stat(dpath)
+					if rerr != nil || !already || (oldInfo != nil && ni != nil && !ni.ModTime().Equal(oldInfo.ModTime())) {
+						evs = append(evs, fmt.Sprintf("P %d %d %d %s %s", u, ud, id, common.Hex([]byte(nd)), ddTag))
+					} else {
+						// present before with the same content and untouched: still the data step of a Put
+						evs = append(evs, fmt.Sprintf("P %d %d %d %s %s", u, ud, id, common.Hex([]byte(nd)), ddTag))
+					}
+				}
 				continue
 			}
 			idx, _ := os.ReadFile(filepath.Join(dir, subName(ia), na))
@@ -498,17 +748,25 @@ func (rn *runner) runScenario(scn *Scenario) *Outcome {
 			restored[pathKey(ia, na)] = false
 			lastUse[pathKey(id, nd)] = u
 			restored[pathKey(id, nd)] = already
-			if already {
+			switch {
+			case already && len(data) == 0:
+				out.Tags = append(out.Tags, "ev:put-existing-empty-output")
+			case already:
 				out.Tags = append(out.Tags, "ev:put-existing-output")
-			} else {
+			default:
 				out.Tags = append(out.Tags, "ev:put-new-output")
 			}
-			evs = append(evs, fmt.Sprintf("S %d %d %s %s %d %s %s", u, ia, common.Hex([]byte(na)), tagHex(idx), id, common.Hex([]byte(nd)), tagHex(content(e.Data))))
+			evs = append(evs, fmt.Sprintf("S %d %d %d %s %s %d %s %s", u, ud, ia, common.Hex([]byte(na)), tagHex(idx), id, common.Hex([]byte(nd)), ddTag))
 		case "trim":
 			before := snapshot(dir, subs)
 			terr := c.Trim()
 			after := snapshot(dir, subs)
 			trimOracles(out, before, after, u, slack, lastUse, restored, terr)
+			if terr != nil {
+				implErrs = append(implErrs, '1')
+			} else {
+				implErrs = append(implErrs, '0')
+			}
 			for k := range lastUse {
 				// a removed file carries no history into a later re-creation
 				var sub int
@@ -523,45 +781,49 @@ func (rn *runner) runScenario(scn *Scenario) *Outcome {
 				}
 			}
 			evs = append(evs, fmt.Sprintf("T %d", u))
-			lastTrimNow = u
 		}
 	}
-	_ = lastTrimNow
 	final := snapshot(dir, subs)
 	// ---- the model on the same directory and history
 	if rn.m != nil && !out.has("put-error") {
-		req := "run 1 " + modelDir(s0) + " " + fmt.Sprint(len(evs))
+		tail := " " + fmt.Sprint(len(evs))
 		if len(evs) > 0 {
-			req += " " + strings.Join(evs, " ")
+			tail += " " + strings.Join(evs, " ")
 		}
-		ans := canonModelAnswer(rn.m.Ask1(req))
+		answers, err := rn.m.Ask([]string{"run 1 " + modelDir(s0) + tail, "holds " + modelDir(s0) + tail})
+		if err != nil {
+			out.find("correspondence", "model-process", "model-died", err.Error())
+			return out
+		}
+		ans, merrs := canonModelAnswer(answers[0])
 		impl := "D " + modelDir(final)
 		if !sameDir(ans, impl) {
 			out.Findings = append(out.Findings, Finding{Kind: "correspondence", Oracle: "run", Key: "run",
 				Detail: "final directory of the model and of the implementation differ: " + firstDiff(ans, impl),
 				Model:  ans, Impl: impl})
 		}
+		ie := string(implErrs)
+		if ie == "" {
+			ie = "-"
+		}
+		if merrs != ie {
+			out.Findings = append(out.Findings, Finding{Kind: "correspondence", Oracle: "trim-error", Key: "trim-error-flags",
+				Detail: "error returns of the Trim calls (1 = error): model " + merrs + ", implementation " + ie, Model: merrs, Impl: ie})
+		}
+		if answers[1] != "true" {
+			out.Findings = append(out.Findings, Finding{Kind: "correspondence", Oracle: "model:c13_holds_on", Key: "c13_holds_on",
+				Detail: "the executable history statement (used within five days => still there) is " + answers[1] + " on the model for this directory and history",
+				Model:  answers[1]})
+		}
 	}
 	return out
 }
 
-func (o *Outcome) hasKey(key string) bool {
-	for _, f := range o.Findings {
-		if f.Key == key {
-			return true
-		}
-	}
-	return false
-}
-
-// sameDir compares two rendered directories; with the real clock the recorded second may
-// differ by the time the calls took.
+// sameDir compares two rendered directories; with the real clock the recorded second and the
+// mtimes set during the history may differ by the time the calls took.
 func sameDir(a, b string) bool {
 	if a == b {
 		return true
-	}
-	if injectable {
-		return false
 	}
 	fa, fb := strings.Fields(a), strings.Fields(b)
 	if len(fa) != len(fb) || len(fa) < 2 {
@@ -571,9 +833,10 @@ func sameDir(a, b string) bool {
 		if fa[i] == fb[i] {
 			continue
 		}
+		if injectable {
+			return false
+		}
 		if i != 1 {
-			// an mtime set by an operation during the history: the real clock moved between
-			// the runner's reading and the operation's
 			ma, ea := strconv.ParseInt(fa[i], 10, 64)
 			mb, eb := strconv.ParseInt(fb[i], 10, 64)
 			if ea != nil || eb != nil || ma < 1e15 || mb < 1e15 || ma-mb > 5*sec || mb-ma > 5*sec {
@@ -610,215 +873,4 @@ func firstDiff(a, b string) string {
 		}
 	}
 	return fmt.Sprintf("lengths %d vs %d", len(fa), len(fb))
-}
-
-// ---------------------------------------------------------------- generators
-
-func ages(r *common.RNG) []int64 {
-	var out []int64
-	deltas := []int64{-hour, -sec, -1, 0, 1, sec, hour}
-	if !injectable {
-		deltas = []int64{-hour, -10 * sec, 10 * sec, hour}
-	}
-	for _, th := range []int64{hour, day, fiveDays, fiveDays + hour} {
-		for _, d := range deltas {
-			out = append(out, th+d)
-		}
-	}
-	extra := []int64{0, sec, 30 * 60 * sec, 2 * hour, 3 * day, 6 * day, 10 * day, 400 * day, -sec, -2 * hour, -10 * day}
-	if !injectable {
-		extra = []int64{10 * sec, 30 * 60 * sec, 2 * hour, 3 * day, 6 * day, 10 * day, 400 * day, -2 * hour, -10 * day}
-	}
-	return append(out, extra...)
-}
-
-var agePool []int64
-
-func pickAge(r *common.RNG) int64 {
-	a := common.Pick(r, agePool)
-	if fsGran > 1 {
-		a -= a % fsGran
-	}
-	return a
-}
-
-var handNames = []string{"x-a", "x-d", "-a", "-d", "a-d", "foo-a.tmp", "foo-b", "README", "-", "a", "d", "x-A", "x-a ",
-	"é-d", "\xff-a", ".hidden-a", "trim.txt", "x-ad", "x-a-d", "x\n-a", "fuzz-d", "0123456789abcdef0123456789abcdef0123456789abcdef0123456789abcdef-a",
-	"0123456789abcdef0123456789abcdef0123456789abcdef0123456789abcdef-d", "-a-", "a-", "--a", "x-aa", "x_d", " -d"}
-var rootNames = []string{"README", "fuzz/corpus-a", "fuzz/x/seed-d", "log.txt", "x-a", "old-d", "trim.txt.bak", "trim.txt~", "zz", "100", "aa-d", "-a", "testcache.txt"}
-
-func genRecord(r *common.RNG, now int64) *string {
-	nsec := floorDiv(now, 1e9)
-	dec := func(d int64) string { return strconv.FormatInt(nsec+d, 10) }
-	big55 := new(big.Int).Lsh(big.NewInt(1), 55)
-	var s string
-	switch r.Intn(12) {
-	case 0:
-		return nil
-	case 1, 2, 3:
-		ds := []int64{0, -1, -86399, -86400, -86401, -3599, -3600, -3601, 1, 3599, 3600, 3601, -6 * 86400, 86400, -43200, 1800}
-		if !injectable {
-			ds = []int64{-30, -86300, -86500, -6 * 86400, 86400, -43200, 1800, 3500, 3700}
-		}
-		s = dec(common.Pick(r, ds))
-	case 4:
-		ds := []int64{0, -86399, -86400, -3600, 3599, 3600, 3601, -100}
-		if !injectable {
-			ds = []int64{-30, -86300, -86500, 3500, 3700}
-		}
-		core := dec(common.Pick(r, ds))
-		s = common.Pick(r, []string{" ", "\n", "\t", "\r\n", " ", "　", "\u0085", " ", "  \n\t", ""}) + core +
-			common.Pick(r, []string{"\n", " ", "\r\n", " ", " \n", "\t \t", ""})
-	case 5:
-		s = common.Pick(r, []string{"", " ", "\n", "abc", "12x", "0x10", "1_0", "1e9", "１２３", "\xff", "\x00", "1 2", "--5", "+-5", "+", "-", "\ufeff1", "1.0", "0b1", "٣"})
-	case 6:
-		s = common.Pick(r, []string{"9223372036854775807", "-9223372036854775808", "9223372036854775808", "-9223372036854775809",
-			"18446744073709551616", "18446744073709551615", "99999999999999999999999999", "-99999999999999999999999999",
-			"9223372036854775807\n", " 9223372036854775806", "9223372030000000000", "9223371974719179007", "9223371974719179008"})
-	case 7:
-		k := new(big.Int).Mul(big55, big.NewInt(int64(r.Intn(200)+1)))
-		if r.Bool() {
-			k.Neg(k)
-		}
-		s = new(big.Int).Add(big.NewInt(nsec), k).String()
-	case 8:
-		s = common.Pick(r, []string{"0", "-0", "+0", "1", "-1", "-5", "000", "1000000000", "-62135596800", "-62135596801", "253402300800"})
-	case 9:
-		s = "+" + dec(common.Pick(r, []int64{0, -86399, -86400, 3600}))
-		if r.Bool() {
-			s = "0000" + s[1:]
-		}
-	case 10:
-		core := dec(common.Pick(r, []int64{0, -100}))
-		s = core + common.Pick(r, []string{"x", ".0", " " + core, "\x00", "e0", "_", ",", "\n1"})
-	default:
-		s = strconv.FormatInt(int64(r.Uint64()), 10)
-	}
-	h := hex.EncodeToString([]byte(s))
-	return &h
-}
-
-func genNow(r *common.RNG) int64 {
-	n := int64(1700000000)*1e9 + int64(r.Intn(300000000))*1e9
-	switch r.Intn(4) {
-	case 0:
-	case 1:
-		n += 999999999
-	case 2:
-		n += 1
-	default:
-		n += int64(r.Intn(1000000000))
-	}
-	if fsGran > 1 {
-		n -= n % fsGran
-	}
-	return n
-}
-
-func genScenario(r *common.RNG) *Scenario {
-	s := &Scenario{Now: genNow(r)}
-	s.Record = genRecord(r, s.Now)
-	frac := s.Now - floorDiv(s.Now, 1e9)*1e9
-	for i, n := 0, r.Intn(5); i < n; i++ {
-		e := Entry{ID: r.Intn(6), Data: r.Intn(4), AgeA: pickAge(r)}
-		e.AgeD = e.AgeA
-		if r.Chance(1, 2) {
-			e.AgeD = pickAge(r)
-		}
-		s.Entries = append(s.Entries, e)
-	}
-	subs := []int{0, 1, 0x7f, 0xff, r.Intn(256)}
-	for _, e := range s.Entries {
-		ia, _ := indexPath(e.ID)
-		subs = append(subs, ia)
-	}
-	for i, n := 0, r.Intn(9); i < n; i++ {
-		o := Obj{Sub: common.Pick(r, subs), Name: common.Pick(r, handNames), Age: pickAge(r), Kind: "F", Data: fmt.Sprintf("hand %d", r.Intn(5))}
-		switch r.Intn(12) {
-		case 0:
-			o.Kind = "E"
-		case 1:
-			o.Kind = "D"
-		case 2:
-			o.Kind = "L"
-		}
-		if r.Chance(1, 5) {
-			o.Sub = -1
-			o.Name = common.Pick(r, rootNames)
-		}
-		s.Objs = append(s.Objs, o)
-	}
-	// the history: events before the trim at offset 0, then possibly more
-	var pre []Event
-	for i, n := 0, r.Intn(6); i < n; i++ {
-		a := pickAge(r)
-		if a < 0 {
-			a = -a
-		}
-		ev := Event{At: -a, ID: r.Intn(6), Data: r.Intn(4)}
-		ev.Op = common.Pick(r, []string{"get", "getfile", "getbytes", "getbytes", "outputfile", "put", "put"})
-		if r.Chance(1, 12) {
-			ev.Op = "trim"
-		}
-		pre = append(pre, ev)
-	}
-	sort.SliceStable(pre, func(i, j int) bool { return pre[i].At < pre[j].At })
-	s.Events = pre
-	if r.Chance(9, 10) {
-		s.Events = append(s.Events, Event{Op: "trim", At: 0})
-	}
-	if r.Chance(1, 3) {
-		offs := []int64{sec, hour, day - frac - 1, day - frac, day - frac + 1, day - sec, day, day + sec, 2 * day, 6 * day, fiveDays + hour, fiveDays + hour + 1}
-		if !injectable {
-			offs = []int64{0}
-		}
-		var post []Event
-		for i, n := 0, r.Intn(4)+1; i < n; i++ {
-			ev := Event{At: common.Pick(r, offs), ID: r.Intn(6), Data: r.Intn(4)}
-			ev.Op = common.Pick(r, []string{"trim", "trim", "getbytes", "put", "getfile"})
-			post = append(post, ev)
-		}
-		sort.SliceStable(post, func(i, j int) bool { return post[i].At < post[j].At })
-		s.Events = append(s.Events, post...)
-	}
-	if r.Chance(1, 15) {
-		s.Missing = []int{r.Intn(256)}
-	}
-	return s
-}
-
-// restoreScenario is the hand-written history behind the defect found while building this
-// check: an output stored six days ago and never looked up is stored again (under the same
-// and under another action id) seconds before a trim.
-func restoreScenario() *Scenario {
-	return &Scenario{Now: 1800000000123456789,
-		Entries: []Entry{{ID: 1, Data: 1, AgeA: 6 * day, AgeD: 6 * day}},
-		Events: []Event{{Op: "put", At: -2 * sec, ID: 1, Data: 1}, {Op: "put", At: -sec, ID: 2, Data: 1},
-			{Op: "trim", At: 0}, {Op: "getbytes", At: sec, ID: 2}}}
-}
-
-func scenarioJSON(s *Scenario) string {
-	b, _ := json.Marshal(s)
-	return string(b)
-}
-
-func describeScenario(s *Scenario) string {
-	var b strings.Builder
-	fmt.Fprintf(&b, "now=%d", s.Now)
-	if s.Record == nil {
-		b.WriteString(" trim.txt=missing")
-	} else {
-		raw, _ := hex.DecodeString(*s.Record)
-		fmt.Fprintf(&b, " trim.txt=%q", raw)
-	}
-	for _, e := range s.Entries {
-		fmt.Fprintf(&b, "; Put(id%d,data%d) then index age %s, data age %s", e.ID, e.Data, time.Duration(e.AgeA), time.Duration(e.AgeD))
-	}
-	for _, o := range s.Objs {
-		fmt.Fprintf(&b, "; %s %d/%q age %s", o.Kind, o.Sub, o.Name, time.Duration(o.Age))
-	}
-	for _, e := range s.Events {
-		fmt.Fprintf(&b, "; %s(id%d,data%d)@%s", e.Op, e.ID, e.Data, time.Duration(e.At))
-	}
-	return b.String()
 }
